@@ -601,6 +601,7 @@ type Frame struct {
 	args     [][]string
 	privAlloc map[*ssa.Alloc]bool
 	initGlobals []*ssa.Global
+	closureCell map[*ssa.Alloc]*ssa.MakeClosure
 	privHeaps map[string]bool // slice-element heaps whose arrays allocated here never escape (type-based)
 }
 
@@ -1652,6 +1653,67 @@ func (fr *Frame) privateSliceHeaps() map[string]bool {
 	for h := range cands {
 		if !escapes[h] {
 			out[h] = true
+		}
+	}
+	// maps: a map type no value of which is passed on, stored, captured, sent or boxed in this function
+	mapTypes := map[string]*types.Map{}
+	mapEsc := map[string]bool{}
+	markMap := func(v ssa.Value) {
+		if v == nil {
+			return
+		}
+		if mt, ok := v.Type().Underlying().(*types.Map); ok {
+			mapEsc[types.TypeString(mt, nil)] = true
+		}
+	}
+	for _, b := range fr.fn.Blocks {
+		for _, ins := range b.Instrs {
+			if v, ok := ins.(ssa.Value); ok {
+				if mt, ok := v.Type().Underlying().(*types.Map); ok {
+					mapTypes[types.TypeString(mt, nil)] = mt
+				}
+			}
+			switch x := ins.(type) {
+			case ssa.CallInstruction:
+				c := x.Common()
+				if bi, ok := c.Value.(*ssa.Builtin); ok {
+					switch bi.Name() {
+					case "len", "delete":
+						continue
+					}
+				}
+				for _, a := range c.Args {
+					markMap(a)
+				}
+				if c.IsInvoke() {
+					markMap(c.Value)
+				}
+			case *ssa.Store:
+				if _, priv := fr.locsPrivate(x.Addr); !priv {
+					markMap(x.Val)
+				}
+			case *ssa.MapUpdate:
+				markMap(x.Value)
+			case *ssa.MakeClosure:
+				for _, bnd := range x.Bindings {
+					markMap(bnd)
+					if pt, ok := bnd.Type().Underlying().(*types.Pointer); ok {
+						if mt, ok := pt.Elem().Underlying().(*types.Map); ok {
+							mapEsc[types.TypeString(mt, nil)] = true
+						}
+					}
+				}
+			case *ssa.Send:
+				markMap(x.X)
+			case *ssa.MakeInterface:
+				markMap(x.X)
+			}
+		}
+	}
+	for k, mt := range mapTypes {
+		if !mapEsc[k] {
+			a, b, c := vc.d.mapHeaps(mt)
+			out[a], out[b], out[c] = true, true, true
 		}
 	}
 	return out
